@@ -1028,8 +1028,17 @@ impl SparqlDatabase {
 
                     let object_raw = object_tokens.join(" ");
 
-                    // Handle annotation syntax {| ... |}
-                    let (object_part, annotations) = if let Some(ann_start) = object_raw.find("{|")
+                    // Handle annotation syntax {| ... |}; inside a literal `{|` is just text
+                    let after_literal = if object_raw.starts_with('"') {
+                        decode_ntriples_literal(&object_raw)
+                            .map_or(0, |(_, rest)| object_raw.len() - rest.len())
+                    } else {
+                        0
+                    };
+                    let (object_part, annotations) = if let Some(ann_start) = object_raw
+                        [after_literal..]
+                        .find("{|")
+                        .map(|offset| offset + after_literal)
                     {
                         let obj = object_raw[..ann_start].trim().to_string();
 
@@ -1053,49 +1062,26 @@ impl SparqlDatabase {
                         (object_raw, vec![])
                     };
 
-                    let subject =
-                        this.resolve_query_term(&Self::clean_turtle_term(s_raw), &this.prefixes);
-                    let predicate =
-                        this.resolve_query_term(&Self::clean_turtle_term(p_raw), &this.prefixes);
-                    let object = this
-                        .resolve_query_term(&Self::clean_turtle_term(&object_part), &this.prefixes);
+                    let subject = this.turtle_term(s_raw);
+                    let predicate = this.turtle_term(p_raw);
+                    let object = this.turtle_term(&object_part);
 
-                    // Emit the main triple
-                    if subject.starts_with("<<") || object.starts_with("<<") {
-                        let s_id = this.encode_term_star(&subject);
-                        let p_id = this.encode_term_star(&predicate);
-                        let o_id = this.encode_term_star(&object);
-                        let triple = Triple {
-                            subject: s_id,
-                            predicate: p_id,
-                            object: o_id,
-                        };
-                        this.add_triple(triple);
-                    } else {
-                        let mut dict = this.dictionary.write().unwrap();
-                        let triple = Triple {
-                            subject: dict.encode(&subject),
-                            predicate: dict.encode(&predicate),
-                            object: dict.encode(&object),
-                        };
-                        drop(dict);
-                        this.add_triple(triple);
-                    }
+                    // Emit the main triple: cleaned terms are stored as they are,
+                    // only quoted triples go through the surface-syntax encoder.
+                    let triple = Triple {
+                        subject: this.encode_loaded_term(&subject),
+                        predicate: this.encode_loaded_term(&predicate),
+                        object: this.encode_loaded_term(&object),
+                    };
+                    this.add_triple(triple);
 
                     // Emit annotation triples, if any
                     for (ann_pred, ann_obj) in &annotations {
                         let qt_str = format!("<< {} {} {} >>", subject, predicate, object);
                         let qt_id = this.encode_term_star(&qt_str);
 
-                        let ann_p_id = this.encode_term_star(&this.resolve_query_term(
-                            &Self::clean_turtle_term(ann_pred),
-                            &this.prefixes,
-                        ));
-                        let ann_o_id =
-                            this.encode_term_star(&this.resolve_query_term(
-                                &Self::clean_turtle_term(ann_obj),
-                                &this.prefixes,
-                            ));
+                        let ann_p_id = this.encode_loaded_term(&this.turtle_term(ann_pred));
+                        let ann_o_id = this.encode_loaded_term(&this.turtle_term(ann_obj));
 
                         let ann_triple = Triple {
                             subject: qt_id,
@@ -1273,6 +1259,17 @@ impl SparqlDatabase {
             }
         } else {
             term.trim_matches('"').to_string()
+        }
+    }
+
+    /// Turns one Turtle token into the stored term: a literal is decoded and kept
+    /// as it is, anything else is cleaned and then resolved against the prefixes.
+    fn turtle_term(&self, raw: &str) -> String {
+        let raw = raw.trim();
+        if raw.starts_with('"') {
+            Self::clean_turtle_term(raw)
+        } else {
+            self.resolve_query_term(&Self::clean_turtle_term(raw), &self.prefixes)
         }
     }
 
